@@ -44,3 +44,11 @@ Example C20_example :
             ([47; 116; 114; 97; 110; 115; 102; 101; 114; 47; 116; 111; 47; 97]%N, 9%N)] in
   all_pages 6 l 2 [] = Some [(k [97]%N, 1%N); (k [97; 98]%N, 2%N); (k [98]%N, 3%N)].
 Proof. vm_compute. reflexivity. Qed.
+
+(* a page size beyond the number of ledger entries behaves like that number plus one (so the correspondence can evaluate
+   the largest sizes the interface takes without counting up to them) *)
+Theorem C20_size_beyond_ledger : forall (V : Type) (l : list (list N * V)) size bm,
+  query l size bm = query l (clamp l size) bm /\
+  forall fuel, all_pages fuel l size bm = all_pages fuel l (clamp l size) bm.
+Proof. intros V l size bm. split; [apply query_clamp|intros fuel; apply all_pages_clamp]. Qed.
+Print Assumptions C20_size_beyond_ledger.
